@@ -20,7 +20,7 @@ func init() {
 	register(&Property{
 		ID:        "C07",
 		Title:     "Indexed selector matching equals direct selector evaluation",
-		Technique: "static analysis: cut-set guard / dominance pairing on InheritIndex match bookkeeping, reachability of rescans from every input write, partial evaluation of each leaf Node's Evaluate against its LabelRestrictions, symbolic execution of the And/Or restriction-merge loops with a truth-table check per LabelRestriction field, guard/order analysis of the parent registry (go/ssa)",
+		Technique: "static analysis: cut-set guard / dominance pairing on InheritIndex match bookkeeping, reachability of rescans from every input write, partial evaluation of each leaf Node's Evaluate against its LabelRestrictions, symbolic execution of the And/Or restriction-merge loops with a truth-table check per LabelRestriction field, guard/order analysis of the parent registry, typestate of the sorted value-set type (every conversion to the binary-searched slice type is cut by a sort or a len<=1 edge), cut-set guard on the adoption of a single-index scan strategy (go/ssa)",
 		DesignRef: "DESIGN.md §3 C07",
 		Explanation: "Decides (alternate) every OnMatchStarted/OnMatchStopped invocation of InheritIndex is guarded by non-membership/membership of the (selector,item) pair in one of the two match maps, " +
 			"performs the matching Add/Discard on that map and the mirror map on the same path, and nothing else mutates, replaces or drops entries of the match maps (map entries created only empty-on-miss, deleted only when empty); " +
@@ -30,12 +30,15 @@ func init() {
 			"(MustBePresent ⇒ absent→false; MustHaveOneOfValues ⇒ absent→false and present→ val==node.F / node.F.Contains(val) on the same field; key = the label looked up), " +
 			"and NotNode only derives MustBeAbsent from operand types whose Evaluate is constantly true when the label is present; " +
 			"(combine) for every Node type with an operand list (And/Or, classified as conjunction/disjunction from its Evaluate), every path of the loop that merges an operand's restrictions into the accumulated map is executed symbolically and, per field of LabelRestriction (enumerated from the struct), a disjunction keeps a bool restriction only if both merged entries impose it and a value list only if both are non-nil and the result is computed from both, a conjunction only if one of the entries imposes it; a disjunction merges every operand; " +
-			"(parentreg) a parent registry entry is deleted only when it has no children and no labels (tested on the entry deleted); on a parents update an item is unregistered from / the registry entry dropped for an old parent only if that parent is not among the new parents (membership test using the same projection of old and new parents) or after re-registration; an item's parent list holds registry objects only — so every parent an item references is the object that receives that parent's label updates.",
-		NotDecided: "That the match relation equals evaluation over histories (only the per-step bookkeeping is decided); that the helpers merging two value lists really compute union (Or) / intersection (And) — only that the result is derived from both lists under the right nil-guards; soundness of LabelRestrictionIndex/LabelNameValueIndex candidate selection and of the scan strategies in named_port_index.go; contents of sets at run time.",
+			"(parentreg) a parent registry entry is deleted only when it has no children and no labels (tested on the entry deleted); on a parents update an item is unregistered from / the registry entry dropped for an old parent only if that parent is not among the new parents (membership test using the same projection of old and new parents) or after re-registration; an item's parent list holds registry objects only — so every parent an item references is the object that receives that parent's label updates; " +
+			"(sortedset) the parser's value-set type is found structurally (the named slice type with a method that binary-searches its receiver: StringSet.Contains) and every creation of such a value from a plain slice - explicit conversion, implicit conversion in an assignment/return/struct literal, composite literal, append to a set - in the parser and label index packages is justified: the source is nil or has at most one element, or it is sorted (library sort, or a helper that sorts its parameter on every path) on every path that reaches the conversion or that path establishes len<=1, and elements appended on the way are taken from that same sorted slice; plain []Handle values (MustHaveOneOfValues lists, which Or builds in source order) carry no ordering guarantee; " +
+			"(candidates) in SelectorAndNamedPortIndex the scan strategy that one label index (endpoint-own or parent) offers for a label restriction is adopted as the candidate scan only where every path has tested the other index's strategy for the same label and restriction to be empty - an endpoint can satisfy a restriction through its own or an inherited label, and an endpoint left out of the scan is never evaluated.",
+		NotDecided: "That the match relation equals evaluation over histories (only the per-step bookkeeping is decided); that the helpers merging two value lists really compute union (Or) / intersection (And) — only that the result is derived from both lists under the right nil-guards; soundness of LabelRestrictionIndex/LabelNameValueIndex candidate selection and, beyond the single-index adoption rule, of the scan strategies in named_port_index.go (cost comparison, parent scan de-duplication); that the order produced by the sort is the order the binary search assumes (comparator agreement), element stores / copy() into an existing set value, and sets built with make()+index stores; contents of sets at run time.",
 		Assumptions: []string{
 			"go/types + go/ssa (x/tools v0.50.0) model of the current source, CGO_ENABLED=0 build",
 			"set.Typed has set semantics (Add/Discard/Contains/Len); methods other than String/Len/Contains/All/Copy/Slice/Equals/ContainsAll are treated as mutators",
-			"parser.StringSet.Contains is membership and StringSet.SliceCopy returns the same elements",
+			"parser.StringSet.Contains is membership on a sorted receiver (sortedness of every receiver is what C07.sortedset decides) and StringSet.SliceCopy returns the same elements",
+			"sort.Slice/SliceStable/Sort/Stable/Strings and slices.Sort/SortFunc/SortStableFunc sort their first argument; slices.Compact/CompactFunc/Clip keep the order",
 			"logrus Panic*/Fatal* do not return",
 		},
 		Run: runC07,
@@ -98,6 +101,18 @@ func init() {
 				Old: "\t_, ok := labels.GetHandle(node.LabelName)\n\tif ok {\n\t\treturn true\n\t}\n\treturn false\n", New: "\t_, ok := labels.GetHandle(node.LabelName)\n\tif ok {\n\t\treturn true\n\t}\n\treturn true\n", Expect: "C07.restrict/HasNode"},
 			{Name: "!(a == 'b') treated as 'a must be absent'", File: "libcalico-go/lib/selector/parser/ast.go",
 				Old: "if hasNode, ok := node.Operand.(*HasNode); ok {", New: "if hasNode, ok := node.Operand.(*LabelEqValueNode); ok {", Expect: "C07.restrict/NotNode"},
+			{Name: "And intersects against an operand's value list that is cast to the set type without being sorted (Or builds it in source order)", File: "libcalico-go/lib/selector/parser/ast.go",
+				Old: "\tbSet := ConvertToStringSetInPlace(b)\n", New: "\tbSet := StringSet(b)\n", Expect: "C07.sortedset/create/intersectStringSlicesInPlace"},
+			{Name: "normalising constructor returns two-element slices unsorted", File: "libcalico-go/lib/selector/parser/stringset.go",
+				Old: "\tif len(s) <= 1 {\n", New: "\tif len(s) <= 2 {\n", Expect: "C07.sortedset/create/ConvertToStringSetInPlace"},
+			{Name: "normalising constructor only de-duplicates adjacent values, no longer sorts", File: "libcalico-go/lib/selector/parser/stringset.go",
+				Old: "\tsort.Slice(s, func(i, j int) bool {\n\t\treturn s[i].Value() < s[j].Value()\n\t})\n", New: "", Expect: "C07.sortedset/create/ConvertToStringSetInPlace"},
+			{Name: "label present on endpoints AND profiles: endpoint-only index scan adopted, endpoints inheriting the label are never evaluated", File: "felix/labelindex/named_port_index.go",
+				Old: "\t\t\t\t\"Label applies to both endpoints and parents, cannot do optimised scan.\")\n", New: "\t\t\t\t\"Label applies to both endpoints and parents, cannot do optimised scan.\")\n\t\t\tif epsToScan < bestEPStrategy.EstimatedItemsToScan() {\n\t\t\t\tbestEPStrategy = epStrat\n\t\t\t}\n", Expect: "C07.candidates/SelectorAndNamedPortIndex.iterEndpointCandidates/adopt(endpointKVIdx)"},
+			{Name: "endpoint index strategy adopted without checking that no profile carries the label", File: "felix/labelindex/named_port_index.go",
+				Old: "\t\tif epsToScan > 0 && parentsToScan == 0 {", New: "\t\tif epsToScan > 0 {", Expect: "C07.candidates/SelectorAndNamedPortIndex.iterEndpointCandidates/adopt(endpointKVIdx)"},
+			{Name: "parent index strategy adopted without checking that no endpoint carries the label itself", File: "felix/labelindex/named_port_index.go",
+				Old: "\t\t} else if epsToScan == 0 && parentsToScan > 0 {", New: "\t\t} else if parentsToScan > 0 {", Expect: "C07.candidates/SelectorAndNamedPortIndex.iterEndpointCandidates/adopt(parentKVIdx)"},
 		},
 	})
 }
@@ -303,6 +318,30 @@ func runC07(c *Ctx) {
 	c07Restrict(c, p)
 	c07ParentReg(c, p, "C07.parentreg")
 	c07Combine(c, p)
+
+	c.Rule("C07.sortedset", "typestate / E-GUARD", "the parser's value-set type (the named slice type whose method binary-searches its receiver) is only created from a value of that type, from nil / at most one element, or from a plain slice that is sorted on every path reaching the conversion (explicit or implicit), elements appended on the way being taken from that sorted slice", 2)
+	c07SortedSet(c, p)
+
+	// The candidate scan of SelectorAndNamedPortIndex decides which endpoints a newly added selector is
+	// ever evaluated against: an endpoint the scan skips is never reported as matching although direct
+	// evaluation of the selector on its effective (own + inherited) labels says it matches.  An endpoint
+	// can satisfy a label restriction through its own label (endpoint index) or an inherited one (parent
+	// index), so narrowing the scan to what ONE index offers is only sound where the other index has
+	// nothing for the restriction - C04's candidate-adoption rule, a necessary condition of "the
+	// label-restriction summaries used to prune candidates never exclude an item the selector actually
+	// matches", armed here under C07's id.
+	c.Rule("C07.candidates", "E-GUARD", "the scan strategy one label index (endpoint-own / parent) offers for a selector's label restriction is adopted as the candidate scan only where, on every path, the other index's strategy for the same restriction was tested to be empty (c04Candidates)", 2)
+	// (c04Candidates only needs the program, its functions and the index type: reuse this run's
+	// program instead of c04BuildModel's separate load and unrelated C04 anchors.)
+	idxTN, _ := p.LookupObj(c07IdxPkg, "SelectorAndNamedPortIndex").(*types.TypeName)
+	if idxTN == nil {
+		c.Lost("type felix/labelindex.SelectorAndNamedPortIndex")
+	}
+	if _, isStruct := idxTN.Type().Underlying().(*types.Struct); !isStruct {
+		c.Lost("felix/labelindex.SelectorAndNamedPortIndex is not a struct")
+	}
+	m04 := &c04Model{c: c, p: p, pd: map[*ssa.Function]map[*ssa.BasicBlock]map[*ssa.BasicBlock]bool{}, funcs: m.funcs, idxT: idxTN}
+	c.Alias("C04.candidates", "C07.candidates", func() { c04Candidates(c, m04, idxTN) })
 }
 
 func c07BuildModel(c *Ctx, p *Prog) *c07Model {
